@@ -4,7 +4,7 @@
   `in_units` discards the offset of the factor and `convert_to_units` applies it.
 
   `routes_agree_em` is over an arbitrary field and arbitrary tables; its table-shaped hypotheses
-  are discharged for the regenerated tables by the kernel-decided obligations below.
+  are discharged for the regenerated tables by the kernel-decided obligations of `C03Tab.lean`.
 -/
 import UnytProofs.C03
 import UnytModel.ConvRoutes
@@ -83,33 +83,39 @@ theorem routes_agree_em (pre : Prefixes K) (t : Lut K) (T : EmTable K) (u target
             simp only [applyFactor, this]
   exact ⟨key, by simp only [toValueEm, key]⟩
 
-end
-
-/-! ### the table obligations, over the regenerated unit table and `em_conversions` -/
-
-/-- only temperature and angle rows of the regenerated unit table carry an offset -/
-theorem table_offsets_wf : lutOffsetsWF = true := by decide +kernel
-
-/-- every partner spelling (all rows × `""` and all SI prefixes) is a zero-offset unit of the
-    partner dimension, which is neither temperature nor angle -/
-theorem em_partners_offset_free : emPartnersOffsetFree = true := by decide +kernel
-
-/-- both members of every EM pair have a zero offset in the unit table -/
-theorem em_rows_zero_offset : emRowsZeroOffset = true := by decide +kernel
-
-section
-attribute [local instance] ratPowStub
-
-/-- non-vacuity: 3 mC → statC takes the EM branch in the model over ℚ and both routes return the
-    same number -/
-example :
-    (match mkUnit c10Pre c10Lut (UExpr.sym "mC"), mkUnit c10Pre c10Lut (UExpr.sym "statC") with
-     | .ok u, .ok v =>
-       (checkEmTo c10Pre c10Lut c10Em u v).toOption.join.isSome
-       && (inUnitsEm c10Pre c10Lut c10Em u 3 v).toOption.isSome
-       && (inUnitsEm c10Pre c10Lut c10Em u 3 v).toOption.map (·.1)
-            == (convertToUnitsEm c10Pre c10Lut c10Em (3, u) v).toOption.map (·.1)
-     | _, _ => false) = true := by decide +kernel
+/-- the base-system routes (`in_base(S)`, hence `in_cgs`/`in_mks`; `convert_to_base(S)`, hence
+    `convert_to_cgs`/`convert_to_mks`) agree with each other and with the explicit request
+    `to(get_base_equivalent(S))` / `convert_to_units(get_base_equivalent(S))` — same numbers, same
+    unit, same refusal — for every unit system `S`, outside the EM short-cut -/
+theorem base_routes_agree (pre : Prefixes K) (t : Lut K) (T : EmTable K) (S : USys K) (u : UnitV K) (x : K)
+    (hc : checkEm pre t T S u = .ok none)
+    (hH : T.hasDim u.dim = false ∨ emHit pre t T u = none) :
+    convertToBase pre t T S (x, u) = inBase pre t T S u x
+    ∧ (∀ v, getBaseEquivalent pre t T S u = .ok v →
+        inBase pre t T S u x = inUnitsEm pre t T u x v
+        ∧ convertToBase pre t T S (x, u) = convertToUnitsEm pre t T (x, u) v) := by
+  have hto : ∀ target, checkEmTo pre t T u target = .ok none := by
+    intro target
+    rcases hH with hD | hH
+    · simp [checkEmTo, hD]
+    · simp only [checkEmTo, hH]; split <;> rfl
+  refine ⟨?_, ?_⟩
+  · simp only [convertToBase, inBase, hc]
+    cases hg : getBaseEquivalent pre t T S u with
+    | error e => rfl
+    | ok target =>
+      simp only [convertToUnitsEm, hto, convertToUnits]
+      cases hf : getConversionFactor pre t u target with
+      | error e => rfl
+      | ok f =>
+        obtain ⟨r, o⟩ := f
+        cases o with
+        | none => rfl
+        | some v => simp only [applyFactor]
+  · intro v hv
+    refine ⟨?_, by simp only [convertToBase, hv]⟩
+    simp only [inBase, hc, hv, inUnitsEm, hto, inUnits]
+    cases getConversionFactor pre t u v <;> rfl
 
 end
 
